@@ -2382,6 +2382,10 @@ func compDefineX(sc *scope, n *node) error {
 		if err != nil {
 			return err
 		}
+		if funtype == nil {
+			// The type of a method declared later is not known yet.
+			return n.cfgErrorf("undefined: %s", src.child[0].name())
+		}
 		for funtype.cat == valueT && funtype.val != nil {
 			// Retrieve original interpreter type from a wrapped function.
 			// Struct fields of function types are always wrapped in valueT to ensure
